@@ -61,12 +61,13 @@ class Translator:
     WHERE_COUNT = 0
 
     def __init__(self, prog: Program, mod, env=None, inline_depth=3,
-                 attr_symbols=True):
+                 attr_symbols=True, free_symbols=False):
         self.prog = prog
         self.mod = mod
         self.env = dict(env or {})
         self.inline_depth = inline_depth
         self.attr_symbols = attr_symbols
+        self.free_symbols = free_symbols
 
     def sym(self, name):
         return sp.Symbol(name, real=True)
@@ -93,6 +94,8 @@ class Translator:
                         nm in self.prog.modules[m].consts:
                     return Translator(self.prog, self.prog.modules[m]).expr(
                         self.prog.modules[m].consts[nm])
+            if self.free_symbols:
+                return self.sym(n.id)
             raise Untranslatable("free name " + n.id)
         if isinstance(n, ast.Attribute):
             d = self.prog.dotted(self.mod, n)
@@ -231,6 +234,23 @@ class Translator:
                 self.store(a, b)
             return
         self.env[norm(t)] = v
+
+
+def number_locals(tr, fnode, before_line, skip=()):
+    """value-number the simple local assignments of fnode that precede
+    `before_line` into the translator's environment (untranslatable ones are
+    skipped); names in `skip` keep their preset meaning"""
+    from .core import walk_no_nested
+    preset = {k: tr.env[k] for k in skip if k in tr.env}
+    for st in sorted((x for x in walk_no_nested(fnode)
+                      if isinstance(x, (ast.Assign, ast.AugAssign)) and
+                      x.lineno < before_line), key=lambda x: x.lineno):
+        try:
+            tr.exec([st])
+        except Untranslatable:
+            pass
+        tr.env.update(preset)
+    return tr
 
 
 def inline(prog, fi, args, kwargs=None, depth=2):
